@@ -499,9 +499,10 @@ Definition p_ukf_correct (additive : bool) (lp : layout) (comps w r : nat) (vali
   relabel e_ukfc (p_ut (if additive then 4 else 3) li comps w valid msz (base * comps) lm r r) ++
   when valid
   (for_ comps (fun i =>
-     [ It e_ukfc "Pxy.middleCols(meas_size*i,meas_size)" (Blk xr (mdc * comps) 0 (msz * i) xr msz);
+     (* meas_cov_size = predicted_meas_.dim_covariance (commit e82207d; total_size() before) *)
+     [ It e_ukfc "Pxy.middleCols(meas_cov_size*i,meas_cov_size)" (Blk xr (mdc * comps) 0 (mdc * i) xr mdc);
        It e_ukfc "predicted_meas_.covariance(i)" (Blk mdc (mdc * comps) 0 (mdc * i) mdc mdc);
-       It e_ukfc "Pxy_i*Py^-1" (Mul xr msz mdc mdc) ] ++
+       It e_ukfc "Pxy_i*Py^-1" (Mul xr mdc mdc mdc) ] ++
      g_mean e_ukfc lq compsq i ++ g_mean e_ukfc lp comps i ++
      [ It e_ukfc "innovations_.col(i)" (Idx comps i); It e_ukfc "K*innovation" (Mul xr mdc ir 1);
        It e_ukfc "pred.mean(i)+K*innovation" (Same (ldim lp) 1 xr 1);
@@ -572,9 +573,9 @@ Definition p_resample (e : string) (lc : layout) (n : nat) (lr : layout) (nr np 
       It e "res.weight(j)" (Idx nr j); It e "res_parents(j)" (Idx np j) ]).
 
 (* prior variant: k = floor(n * prior_ratio) particles from the prior; the temporaries are built with
-   ParticleSet(count, dim_linear, dim_circular), i.e. never with quaternions *)
+   ParticleSet(count, dim_linear, dim_circular, use_quaternion) (commit d09c5ac; never with quaternions before) *)
 Definition p_resample_prior (lc : layout) (n k np : nat) : prog :=
-  let lt := Lay (lin lc) (circ lc) false 0 in
+  let lt := Lay (lin lc) (circ lc) (quat lc) 0 in
   let nres := n - k in
   [ It e_resp "res_parents.tail(n-k)" (Blk np 1 (np - nres) 0 nres 1) ] ++
   for_ nres (fun j =>
@@ -590,7 +591,7 @@ Definition p_resample_prior (lc : layout) (n k np : nat) : prog :=
   [ It e_resp "res_parents.head(k)" (Blk np 1 0 0 k 1) ].
 (* descriptor and storage of the merged result: components, state cols, mean cols, weight rows, covariance cols *)
 Definition resample_prior_out (lc : layout) (n k : nat) : list nat :=
-  let lt := Lay (lin lc) (circ lc) false 0 in [n; n; n; n; lcov lt * n].
+  let lt := Lay (lin lc) (circ lc) (quat lc) 0 in [n; n; n; n; lcov lt * n].
 
 (* ------------------------------------------------------------------ *)
 (* density utilities                                                    *)
